@@ -327,14 +327,12 @@ def signature_of(job, klass, detail):
     ptype = "?"
     mm = re.search(r"POLY type=(\S+)", job["r"]["out"])
     if mm: ptype = mm.group(1)
-    if klass == "sanitizer" and "__mps_djacobi_aberth_step_worker" in job["r"]["err"] \
-       and (detail.startswith("ub:signed-integer-overflow") or detail.startswith("unknown")):
-        # Jacobi-style DPE packet (mps_daberth_packet: preliminary packet of secular-ga started with -t d, or -b): one call path, several overflow sites in mt.c, thread-timing dependent
-        return "sanitizer:dpe-exponent-overflow:djacobi_aberth_step:%s:alg=%s" % (ptype, alg)
-    if klass == "sanitizer" and job["row"].get("D", "n") != "n" and job["row"].get("o") is not None and c["cls"] not in SPECIAL_CLS \
-       and (detail.startswith("ub:signed-integer-overflow") or detail.startswith("unknown")):
-        # same root cause as the runs with -D and -o that do not end: the precision runs away until a DPE exponent overflows
-        return "sanitizer:dpe-exponent-overflow:detect=real/imag:%s:alg=%s" % (ptype, alg)
+    if klass == "sanitizer" and alg == "s" and job["row"].get("r") and job["row"].get("t") == "d" \
+       and (detail.startswith("FPE:") or detail.startswith("ub:signed-integer-overflow") or detail.startswith("unknown")):
+        # recursive starting strategy (-r) with a DPE start (-t d): mps_recursive_dstart is an empty function, the DPE
+        # approximations are never assigned and whatever the memory holds is iterated on.  Where the garbage surfaces
+        # (GMP invalid operation in mpf_set_d, exponent overflow ...) depends on the input, so the signature is the cause.
+        return "sanitizer:unset-dpe-start:recursive-dstart:%s:alg=s" % ptype
     if klass == "sanitizer" and c["cls"] == "zero-leading" and alg == "s" and (detail.startswith("ub:signed-integer-overflow") or detail.startswith("unknown")):
         # one root cause (runaway approximation of a root that does not exist), many overflow sites in mt.c
         return "sanitizer:dpe-exponent-overflow:zero-leading:%s:alg=s" % ptype
